@@ -71,6 +71,32 @@ theorem late_accept_exact (A : List String) (m : String) (cp : List String)
     rw [h0] at this; cases this
   · exact ⟨k, hk, by simpa using h⟩
 
+/-! ### which objects of an accepted module are tracked -/
+
+/-- the two container options govern lists and dicts and nothing else: whatever they are set to - in any order, at any
+moment before the evaluation - scalars, **tuples**, functions and modules of an accepted module stay tracked, and every other
+kind keeps its treatment -/
+theorem options_govern_containers_only (al ad al' ad' : Bool) (k : ObjKind) (hl : k ≠ .list) (hd : k ≠ .dict) :
+    objTracking al ad k = objTracking al' ad' k := by
+  cases k <;> simp_all [objTracking]
+
+theorem tuple_always_tracked (al ad : Bool) : objTracking al ad .tuple = .tracked := rfl
+
+/-- each option moves its own kind only, between *tracked* and *ignored* (never to a refusal) -/
+theorem list_tracked_iff (al ad : Bool) : objTracking al ad .list = .tracked ↔ al = true := by
+  cases al <;> simp [objTracking]
+theorem dict_tracked_iff (al ad : Bool) : objTracking al ad .dict = .tracked ↔ ad = true := by
+  cases ad <;> simp [objTracking]
+theorem list_ignores_dict_option (al ad ad' : Bool) : objTracking al ad .list = objTracking al ad' .list := rfl
+theorem dict_ignores_list_option (al al' ad : Bool) : objTracking al ad .dict = objTracking al' ad .dict := rfl
+
+/-- with the default options (both on) exactly the instances of foreign / module-less classes are ignored and exactly
+those of accepted classes are refused -/
+theorem default_tracking (k : ObjKind) :
+    (objTracking true true k = .ignored ↔ k = .noModule ∨ k = .ofForeign) ∧
+    (objTracking true true k = .refused ↔ k = .ofAccepted) := by
+  cases k <;> simp [objTracking]
+
 /-- non-vacuity: depth 4, accepted at depth 4, with the three built-in entries only (the case the
 code as originally written got wrong) -/
 example : isAuthorizedPath ["dds", "__main__", "__global__", "p.q.r.s"] ["p", "q", "r", "s", "f"] = true := by
